@@ -164,11 +164,12 @@ CLAIMED.update({
              'group laws); theorems for any rig forest and trajectory: free entries untouched, every entry after replacement is '
              'the pose implied by an original entry and the chain of mountings below it (soundness), every sensor below an entry '
              'gets exactly that pose within the pass budget (completeness), no rig id remains for nesting <= max_depth, identity '
-             'without rigs; recovery after replacement restores every top-level rig pose and keeps free entries for depth-1 rigs '
-             'without master sensors (PARTIAL, full statement kept as recover_remove_statement). Tied by correspondence with the '
+             'without rigs; recovery after replacement restores every top-level rig pose and keeps free entries at ANY nesting depth, '
+             'with and without master sensors (recover_remove_nested / _masters / _exact, under explicit well-formedness '
+             'hypotheses the quantifier grants; also for the real loop with its early exit). Tied by correspondence with the '
              'exact-rational pose algebra on nested forests, masters, in-place and copying variants.',
-        note=COMMON_NOTE + 'dict overwrite under conflicting pose sources is excluded by the quantifier; recovery with nesting and '
-             'master sensors is covered by correspondence and oracle only.',
+        note=COMMON_NOTE + 'dict overwrite under conflicting pose sources is excluded by the quantifier; sparse recoveries (member '
+             'poses missing) are covered by correspondence and oracle only.',
         technique='Lean 4 proof (induction on passes and mounting derivations) + exact-rational differential correspondence',
         design_ref='DESIGN.md §6 C06'),
     'C20': dict(
